@@ -44,6 +44,23 @@ def _load_variants():
                 continue  # recorded as not detected (see DESIGN.md 10.6): not an expectation of the self-test
             V.setdefault(meta["property"], []).append({"id": "seeded:" + d, "kind": "M", "patch": os.path.join(root, d, "patch.diff"),
                                                        "expect": det[0] if det else ""})
+    # independently written, independently confirmed behaviour-preserving refactorings (/verif/twins): kind T -
+    # the check must never report a VIOLATION on them (UNDECIDED = exit 2 is tolerated and counted)
+    troot = os.path.join(VERIF, "twins")
+    if os.path.isdir(troot):
+        props = {}
+        with open(os.path.join(VERIF, "properties.jsonl")) as fh:
+            for line in fh:
+                pj = json.loads(line)
+                props[pj["id"]] = set(pj["anchors"]["files"])
+        for d in sorted(os.listdir(troot)):
+            pp = os.path.join(troot, d, "patch.diff")
+            if not os.path.exists(pp):
+                continue
+            touched = {l[6:].strip() for l in open(pp) if l.startswith("+++ b/")}
+            for pid, files in props.items():
+                if touched & files:
+                    V.setdefault(pid, []).append({"id": "twin:" + d, "kind": "T", "patch": pp})
     return V
 
 
@@ -95,6 +112,8 @@ def run_variant(args):
             ok = code == 1 and (not v.get("expect") or v["expect"] in viol)
         elif kind == "R":
             ok = code == 0 and (v.get("known", None) is None or known == v["known"])
+        elif kind == "T":
+            ok = code in (0, 2) and not viol
         else:  # U
             ok = code in (0, 2)
         return {"id": v["id"], "kind": kind, "outcome": "ok" if ok else "FAIL", "exit": code,
@@ -112,7 +131,7 @@ def run_for(prop: str, repo: str = "/repo", verbose: bool = False, jobs: int = 1
     with ProcessPoolExecutor(max_workers=min(jobs, len(vs))) as ex:
         res = list(ex.map(run_variant, [(prop, v, repo) for v in vs]))
     tally = {"variants": len(vs)}
-    for kind, name in (("M", "mutants"), ("R", "twins"), ("U", "undecided_twins")):
+    for kind, name in (("M", "mutants"), ("R", "twins"), ("U", "undecided_twins"), ("T", "independent_refactorings")):
         rk = [r for r in res if r["kind"] == kind]
         tally[name] = {"total": len(rk), "as_expected": sum(1 for r in rk if r["outcome"] == "ok"),
                        "skipped": sum(1 for r in rk if r["outcome"] == "skipped"),
@@ -140,10 +159,12 @@ def main(argv=None):
         if not t.get("variants"):
             print(f"{p}: no variants")
             continue
-        m, r, u = t["mutants"], t["twins"], t["undecided_twins"]
+        m, r, u, tw = t["mutants"], t["twins"], t["undecided_twins"], t["independent_refactorings"]
+        n_und = sum(1 for x in t["results"] if x["kind"] == "T" and x.get("exit") == 2)
         print(f"{p}: mutants {m['as_expected']}/{m['total']} detected (skipped {m['skipped']}), twins {r['as_expected']}/{r['total']} silent, "
-              f"undecided-twins {u['as_expected']}/{u['total']}  failed={m['failed'] + r['failed'] + u['failed']}")
-        bad += len(m["failed"]) + len(r["failed"]) + len(u["failed"])
+              f"undecided-twins {u['as_expected']}/{u['total']}, independent refactorings {tw['as_expected']}/{tw['total']} not accused ({n_und} undecided)  "
+              f"failed={m['failed'] + r['failed'] + u['failed'] + tw['failed']}")
+        bad += len(m["failed"]) + len(r["failed"]) + len(u["failed"]) + len(tw["failed"])
     return 1 if bad else 0
 
 
